@@ -91,8 +91,9 @@ func (simpleHTTPSelf *SimpleHTTPDef) SetHTTPClient(client *http.Client) {
 	if client.Transport == nil {
 		client.Transport = http.DefaultTransport
 	}
-	// Avoid setting up again next time
-	if client.Transport != simpleHTTPSelf.lastTransport {
+	// Avoid setting up again next time(also when this SimpleHTTP is already somewhere in the client's
+	// chain of SimpleHTTPs: wrapping again would make the chain loop back to itself)
+	if client.Transport != simpleHTTPSelf.lastTransport && !simpleHTTPSelf.isInChainOf(client.Transport) {
 		// Keep old one
 		simpleHTTPSelf.clientTransport = client.Transport
 
@@ -103,6 +104,21 @@ func (simpleHTTPSelf *SimpleHTTPDef) SetHTTPClient(client *http.Client) {
 	}
 
 	simpleHTTPSelf.client = client
+}
+
+// isInChainOf Check is this SimpleHTTP one of the SimpleHTTPs chained under the given transport
+func (simpleHTTPSelf *SimpleHTTPDef) isInChainOf(transport http.RoundTripper) bool {
+	for depth := 0; depth < 1024; depth++ {
+		next, ok := transport.(*SimpleHTTPDef)
+		if !ok || next == nil {
+			return false
+		}
+		if next == simpleHTTPSelf {
+			return true
+		}
+		transport = next.clientTransport
+	}
+	return false
 }
 
 // RoundTrip Do RoundTrip things(interceptors)
